@@ -261,7 +261,13 @@ AbsStmts == {SAssign(O("d", <<Fld("a"), Nos>>), NRx),                           
              SAssign(O("h", <<Nos>>), EInt(1)),
              SAssign(O("d", <<Fld("b")>>), MapLit(<<>>)),
              SAssign(Lhs("local", "m", <<Fld("a"), Nos>>), EInt(1)), SAssign(Lhs("local", "m", <<Fld("a"), Fld("b")>>), EInt(1))}
+SDump == [t |-> "dump"]
 AbsKeyCases ==
+  \* the same assignments observed by dump (all out-of-stream variables at once, in the order they were first assigned)
+  {Case(Prog(<<>>, <<>>, m, <<SDump>>, TRUE), Recs2) : m \in Seqs(AbsStmts \ {x \in AbsStmts : x.t = "assign" /\ x.lhs.t = "local"}, 1, 2)}
+  \cup {Case(Prog(<<>>, <<SDump>>, <<SOp(O("sum", <<>>), Oos("sum"), "+", Fld("a")), SAssign(O("cnt", <<Fld("b")>>), NRx)>> \o x, <<SDump>>, TRUE), Recs2) :
+          x \in {<<>>, <<SDump>>, <<SPattern(Bin("==", NRx, EInt(2)), <<SDump>>)>>, <<SUnset(O("sum", <<>>)), SDump>>}}
+  \cup
   {Case(Prog(<<>>, <<>>, <<SDecl("map", "m", MapLit(<<>>))>> \o m \o <<SPrint(Bif("json_stringify", <<Lc("m")>>))>>,
              <<SPrint(Bif("json_stringify", <<Oos("d")>>)), SPrint(Bif("json_stringify", <<Oos("h")>>))>>, q), Recs2) :
      m \in Seqs(AbsStmts, 1, 2), q \in BOOLEAN}
